@@ -15,6 +15,7 @@ struct StreamScenario {
   bool tc_upgrade = false; // start over UDP, server answers TC, library upgrades to TCP
   bool pending_write_cb = false;
   bool connect_inprogress = false;
+  int  umq = 0; // ARES_OPT_UDP_MAX_QUERIES (a limit for UDP sockets; the TCP connection must be unaffected by it)
   bool staggered = false; // first query alone until its frame reached the server, then the others (exercises the deferred-write notification)
 };
 struct StreamPlan {
@@ -34,6 +35,15 @@ struct StreamOutcome {
   int                      io_rounds = 0;
 };
 
+static std::string fmt0(const char *f, ...)
+{
+  char    b[512];
+  va_list ap;
+  va_start(ap, f);
+  vsnprintf(b, sizeof b, f, ap);
+  va_end(ap);
+  return b;
+}
 static Cfg stream_cfg(const StreamScenario &sc)
 {
   Cfg c;
@@ -43,6 +53,7 @@ static Cfg stream_cfg(const StreamScenario &sc)
   c.flags            = sc.tc_upgrade ? 0u : (unsigned)ARES_FLAG_USEVC;
   c.pending_write_cb = sc.pending_write_cb;
   c.connect_mode     = sc.connect_inprogress ? 1 : 0;
+  c.udp_max_queries  = sc.umq;
   c.domains          = {};
   return c;
 }
@@ -151,6 +162,11 @@ static StreamOutcome run_stream(const StreamScenario &sc, const StreamPlan &pl, 
   }
   // mark the reply packets as read for the other oracles
   w.closure();
+  // the server answers every query as soon as all of them have arrived: each one completes with its answer and without
+  // a single timeout (absolute, not relative to the unsegmented run, which would share a defect of the transport)
+  for (auto &t : w.toks)
+    if (t.count == 1 && (t.status != ARES_SUCCESS || t.timeouts > 0))
+      w.violate("C20:stream:query-not-completed-by-its-answer", fmt0("token %d ended with status %d after %d timeout(s) although the server answered every query", t.id, t.status, t.timeouts));
   for (auto &t : w.toks) {
     std::string res = t.result;
     out.tokens += "tok" + std::to_string(t.id) + ":st" + std::to_string(t.status) + ":to" + std::to_string(t.timeouts) + ":" + res + ";";
@@ -173,7 +189,7 @@ static StreamOutcome run_stream(const StreamScenario &sc, const StreamPlan &pl, 
 static std::string plan_json(const StreamScenario &sc, const StreamPlan &pl, long index)
 {
   std::string s = "{\"index\":" + std::to_string(index) + ",\"nq\":" + std::to_string(sc.nq) + ",\"tc_upgrade\":" + (sc.tc_upgrade ? "1" : "0") +
-                  ",\"pending_write_cb\":" + (sc.pending_write_cb ? "1" : "0") + ",\"connect_inprogress\":" + (sc.connect_inprogress ? "1" : "0") + ",\"staggered\":" + (sc.staggered ? "1" : "0") +
+                  ",\"pending_write_cb\":" + (sc.pending_write_cb ? "1" : "0") + ",\"connect_inprogress\":" + (sc.connect_inprogress ? "1" : "0") + ",\"staggered\":" + (sc.staggered ? "1" : "0") + ",\"umq\":" + std::to_string(sc.umq) +
                   ",\"one_byte_reads\":" + (pl.one_byte_reads ? "1" : "0") + ",\"close_after\":" + (pl.close_after ? "1" : "0") + ",\"read_segs\":[";
   for (size_t i = 0; i < pl.read_segs.size(); i++) s += (i ? "," : "") + std::to_string(pl.read_segs[i]);
   s += "],\"write_plan\":[";
@@ -403,6 +419,7 @@ int stream_main(const vf::Args &a)
       sc.pending_write_cb   = geti("pending_write_cb");
       sc.connect_inprogress = geti("connect_inprogress");
       sc.staggered          = geti("staggered");
+      sc.umq                = (int)geti("umq");
       StreamPlan pl;
       pl.one_byte_reads = geti("one_byte_reads");
       pl.close_after    = geti("close_after");
@@ -436,6 +453,11 @@ int stream_main(const vf::Args &a)
             sc.connect_inprogress = cp;
             sc.staggered          = sg;
             scs.push_back(sc);
+            if (!tc && !cp) {
+              // the same with a per-socket query limit for UDP configured: it must not touch the TCP connection
+              sc.umq = 1;
+              scs.push_back(sc);
+            }
           }
   if (a.shard == 0) {
     std::vector<std::pair<Viol, int>> v;
@@ -447,7 +469,8 @@ int stream_main(const vf::Args &a)
     rep.executions++;
     if (!base.viols.empty() || base.reply_len == 0) {
       for (auto &x : base.viols) rep.violation(x.key, "[baseline] " + x.desc, plan_json(sc, StreamPlan(), -100));
-      if (base.reply_len == 0) rep.internal_errors.push_back("baseline scenario produced no TCP replies");
+      if (base.reply_len == 0 && base.viols.empty())
+        rep.violation("C20:stream:queries-never-all-reached-the-server", "[baseline] the server never received all " + std::to_string(sc.nq) + " queued queries over TCP", plan_json(sc, StreamPlan(), -100));
       continue;
     }
     size_t RL = base.reply_len, QL = base.request_len;
